@@ -165,7 +165,12 @@ impl<'a> Ctx<'a> {
                 } else {
                     None
                 };
-                keep(self.step(m, &s, &format!("insert({i},{})", b as u8), |t| t.insert(i, bit(b)), e));
+                keep(self.step(m, &s, &format!("insert({i},{})", b as u8), |t| t.insert(i, bit(b)), e.clone()));
+                if b {
+                    self.step(m, &s, &format!("insert_1({i})"), |t| t.insert_1(i), e);
+                } else {
+                    self.step(m, &s, &format!("insert_0({i})"), |t| t.insert_0(i), e);
+                }
             }
             for i in 0..=n {
                 let e = if i < n {
@@ -175,7 +180,12 @@ impl<'a> Ctx<'a> {
                 } else {
                     None
                 };
-                keep(self.step(m, &s, &format!("set({i},{})", b as u8), |t| t.set(i, bit(b)), e));
+                keep(self.step(m, &s, &format!("set({i},{})", b as u8), |t| t.set(i, bit(b)), e.clone()));
+                if b {
+                    self.step(m, &s, &format!("set_1({i})"), |t| t.set_1(i), e);
+                } else {
+                    self.step(m, &s, &format!("set_0({i})"), |t| t.set_0(i), e);
+                }
             }
         }
         for i in 0..=n {
@@ -207,6 +217,24 @@ impl<'a> Ctx<'a> {
             self.observe(m, &format!("is_sub_of_self({})", show(a)), || sa.is_sub(&s), Some(exp));
             let exp2 = n <= a.len() && a[..n] == m[..];
             self.observe(m, &format!("self_is_sub({})", show(a)), || s.is_sub(&sa), Some(exp2));
+        }
+        // prefix test against every prefix of the state and every one-bit change of such a prefix, both ways
+        // (a longer sequence is never a prefix of a shorter one, whatever the bits beyond it)
+        for l in 0..=n {
+            let pre: M = m[..l].to_vec();
+            let mut cands: Vec<M> = vec![pre.clone()];
+            if l > 0 {
+                let mut q = pre.clone();
+                q[l - 1] = !q[l - 1];
+                cands.push(q);
+            }
+            for a in cands {
+                let Ok(sa) = build(&a) else { continue };
+                let exp = m[..l] == a[..];
+                self.observe(m, &format!("prefix({})_is_sub_of_self", show(&a)), || sa.is_sub(&s), Some(exp));
+                let exp2 = l == n && exp;
+                self.observe(m, &format!("self_is_sub_of_prefix({})", show(&a)), || s.is_sub(&sa), Some(exp2));
+            }
         }
         // ---- constructors must reproduce the state -------------------------------------
         let v = mval(m) as u64;
